@@ -41,6 +41,86 @@ def loop_ordinals(fnode):
     return out
 
 
+def ownership_violations(fnode, module=None, nested=False):
+    """pyvc's value model treats every container as a VALUE held by one variable: an in-place
+    update (`xs.append(v)`, `d[k] = v`, `d[a][b] = v`) is a functional update of that variable.
+    That is sound only if the updated container has no other name and is not visible to the
+    caller: every name updated in place must be bound, in this function, only by fresh
+    allocations (a literal, a comprehension, `[0] * n`, a constructor call).  Returns the list of
+    violations (empty: the function is inside the subset)."""
+    from fxvc.frames import is_alloc, MUTATORS
+    a = fnode.args
+    params = {x.arg for x in list(a.posonlyargs) + list(a.args) + list(a.kwonlyargs)}
+    if a.vararg:
+        params.add(a.vararg.arg)
+    if a.kwarg:
+        params.add(a.kwarg.arg)
+
+    def nodes():
+        stack = list(fnode.body)
+        while stack:
+            n = stack.pop()
+            if isinstance(n, (ast.FunctionDef, ast.AsyncFunctionDef, ast.ClassDef, ast.Lambda)):
+                continue
+            yield n
+            stack.extend(ast.iter_child_nodes(n))
+
+    def root(t):
+        while isinstance(t, (ast.Subscript, ast.Attribute)):
+            t = t.value
+        if isinstance(t, ast.Call) and isinstance(t.func, ast.Attribute) and t.func.attr in ("setdefault", "get"):
+            return root(t.func.value)
+        return t.id if isinstance(t, ast.Name) else None
+    mutated = {}
+    bindings = {}
+    for n in nodes():
+        if isinstance(n, (ast.Assign, ast.AnnAssign, ast.AugAssign)):
+            targets = n.targets if isinstance(n, ast.Assign) else [n.target]
+            for t in targets:
+                for tt in (t.elts if isinstance(t, (ast.Tuple, ast.List)) else [t]):
+                    if isinstance(tt, ast.Subscript):
+                        r = root(tt)
+                        if r:
+                            mutated.setdefault(r, n.lineno)
+                    elif isinstance(tt, ast.Name) and not isinstance(n, ast.AugAssign) and getattr(n, "value", None) is not None:
+                        bindings.setdefault(tt.id, []).append(n.value if not isinstance(t, (ast.Tuple, ast.List)) else None)
+        elif isinstance(n, ast.Call) and isinstance(n.func, ast.Attribute) and n.func.attr in MUTATORS:
+            r = root(n.func.value)
+            if r and not (isinstance(n.func.value, ast.Name) and n.func.attr in ("get",)):
+                mutated.setdefault(r, n.lineno)
+        elif isinstance(n, (ast.For, ast.comprehension)):
+            for e in ast.walk(n.target):
+                if isinstance(e, ast.Name):
+                    bindings.setdefault(e.id, []).append(None)
+        elif isinstance(n, ast.withitem) and n.optional_vars is not None:
+            for e in ast.walk(n.optional_vars):
+                if isinstance(e, ast.Name):
+                    bindings.setdefault(e.id, []).append(None)
+    bad = []
+    for r, line in sorted(mutated.items()):
+        if r in ("self", "cls"):
+            continue
+        if r in params:
+            bad.append(f"line {line}: in-place update of parameter {r!r}")
+            continue
+        bs = bindings.get(r)
+        if not bs:
+            if nested:
+                continue        # a variable of the enclosing function: the closure is executed in its scope
+            if module is not None:
+                import types
+                try:
+                    from .source import live_module
+                    if isinstance(getattr(live_module(module), r, None), types.ModuleType):
+                        continue        # chartparse.tick.add(...): a module function, not a method of a container
+                except Exception:
+                    pass
+            bad.append(f"line {line}: in-place update of {r!r}, which this function does not allocate")
+        elif not all(b is not None and is_alloc(b) for b in bs):
+            bad.append(f"line {line}: in-place update of {r!r}, which may be another name for an existing object")
+    return bad
+
+
 def assigned_in(stmts):
     """Names (and roots of container paths) possibly modified by executing stmts."""
     names = set()
@@ -842,6 +922,7 @@ class StmtsMixin:
             st.set_local("_it", V.vint(it))
             for f in builtin_facts(st, it):
                 st.pc.append(f)
+        havocked = {name: st.lookup(name) for name in mod}
         for name, text in spec.invariants:
             st.pc.append(self.inv_eval(text, st))
         outs = []
@@ -901,6 +982,20 @@ class StmtsMixin:
         for o in body_outs:
             if o.kind in ("fall", "continue"):
                 s2 = o.st
+                # the cut is only sound if the state at the back edge is an instance of the havocked
+                # state: every variable the body assigns must come back with the shape (and, for
+                # python-side objects, the identity / key set) it was havocked with.  A variable
+                # that starts as None or as a class object and is re-bound in the body needs a
+                # declared shape (contract `locals`); otherwise the unit is out of subset.
+                for name in sorted(mod):
+                    if name in extra_mod:
+                        continue        # the loop's own target: re-bound at the start of every iteration
+                    hv, ev = havocked.get(name), s2.lookup(name)
+                    if hv is None or ev is None:
+                        continue
+                    why = self._unstable(hv, ev)
+                    if why:
+                        raise OutOfSubset(f"loop {ordn}: variable {name!r} does not keep its shape across iterations ({why}); declare it in the contract's locals")
                 if is_for:
                     s2.set_local("_it", V.vint(it + 1))
                     if bind is not None and isinstance(node.target, ast.Name) and builtin_facts is not None:
@@ -915,6 +1010,45 @@ class StmtsMixin:
             else:
                 outs.append(o)
         return outs
+
+    def _unstable(self, hv: Val, ev: Val):
+        """why the end-of-iteration value ev is not an instance of the havocked value hv (or None)"""
+        if isinstance(hv.shape, ConcS) or isinstance(ev.shape, ConcS):
+            if not (isinstance(hv.shape, ConcS) and isinstance(ev.shape, ConcS)):
+                return f"{hv.shape} vs {ev.shape}"
+            a, b = hv.d, ev.d
+            if isinstance(a, PyMap) and isinstance(b, PyMap):
+                if set(a.items) != set(b.items) and b.default is None:
+                    return f"dict keys {sorted(map(str, a.items))[:4]} vs {sorted(map(str, b.items))[:4]}"
+                for k in a.items:
+                    if k in b.items:
+                        w = self._unstable(a.items[k], b.items[k])
+                        if w:
+                            return f"entry {k!r}: {w}"
+                return None
+            if isinstance(a, Obj) and isinstance(b, Obj):
+                if set(a.attrs) != set(b.attrs):
+                    return "attribute sets differ"
+                for k in a.attrs:
+                    w = self._unstable(a.attrs[k], b.attrs[k])
+                    if w:
+                        return f"attribute {k}: {w}"
+                return None
+            if a is b:
+                return None
+            try:
+                if type(a) is type(b) and a == b and isinstance(a, (int, str, float, tuple, frozenset, type(None))):
+                    return None
+            except Exception:
+                pass
+            return f"re-bound python-side object ({type(a).__name__} -> {type(b).__name__})"
+        if hv.shape != ev.shape:
+            try:
+                V.coerce(ev, hv.shape)
+                return None
+            except Exception:
+                return f"{hv.shape} vs {ev.shape}"
+        return None
 
     def _growing(self, stmts):
         """Names of lists whose length may change in stmts (append etc.)."""
